@@ -210,35 +210,71 @@ Proof. unfold dump. apply isort_In. Qed.
 (* ---------- any sequence through any handles = operations on the one map ---------- *)
 Lemma do_step_mop_indep O H st m : fst (do_step O H st m) = fst (do_step O H st []).
 Proof.
-  destruct st as [i o|i q|i r]; cbn [do_step].
+  destruct st as [i o|i q|i r|b|o]; cbn [do_step]; try reflexivity.
   - destruct (nth_error (stores H) i) as [strict|]; [|reflexivity].
     destruct o; cbn [store_step]; try reflexivity.
   - destruct (nth_error (sources H) i); reflexivity.
-  - reflexivity.
 Qed.
-Definition effects (O : oracle) (H : handles) (steps : list step) : list (option mop) :=
-  map (fun st => fst (do_step O H st [])) steps.
-Theorem final_is_fold O H : forall steps m, final O H steps m = fold_left apply_omop (effects O H steps) m.
+Lemma do_step_l_indep O H st lk m :
+  fst (fst (do_step_l O H st lk m)) = fst (fst (do_step_l O H st lk [])) /\
+  snd (do_step_l O H st lk m) = snd (do_step_l O H st lk []) /\
+  snd (do_step_l O H st lk m) = lock_after [st] lk.
 Proof.
-  induction steps as [|st r IH]; intros m; [reflexivity|].
-  cbn [final effects map fold_left]. rewrite IH, do_step_mop_indep. reflexivity.
+  pose proof (do_step_mop_indep O H st m) as Hi.
+  destruct st as [i o|i q|i r|b|o]; cbn [do_step_l lock_after]; try (split; [reflexivity|split; reflexivity]);
+    destruct (do_step O H _ m) as [[x|] res]; destruct (do_step O H _ []) as [[y|] res']; cbn [fst] in Hi;
+    try discriminate; destruct lk; cbn [fst snd]; repeat split; congruence.
 Qed.
-Lemma wf_final O H : forall steps m, wf m -> wf (final O H steps m).
+(* the statements a step sequence stands for: they depend on the steps and on the lock, not on the table *)
+Fixpoint effects (O : oracle) (H : handles) (steps : list step) (lk : bool) : list (option mop) :=
+  match steps with
+  | [] => []
+  | st :: r => fst (fst (do_step_l O H st lk [])) :: effects O H r (snd (do_step_l O H st lk []))
+  end.
+Theorem final_is_fold O H : forall steps lk m, final O H steps lk m = fold_left apply_omop (effects O H steps lk) m.
 Proof.
-  induction steps as [|st r IH]; intros m Hw; [exact Hw|]. cbn [final]. apply IH.
-  destruct (fst (do_step O H st m)); cbn [apply_omop]; [now apply wf_apply|exact Hw].
+  induction steps as [|st r IH]; intros lk m; [reflexivity|].
+  cbn [final effects fold_left]. destruct (do_step_l_indep O H st lk m) as (H1 & H2 & _).
+  rewrite IH, H1, H2. reflexivity.
 Qed.
+Lemma wf_final O H : forall steps lk m, wf m -> wf (final O H steps lk m).
+Proof.
+  induction steps as [|st r IH]; intros lk m Hw; [exact Hw|]. cbn [final]. apply IH.
+  destruct (fst (fst (do_step_l O H st lk m))); cbn [apply_omop]; [now apply wf_apply|exact Hw].
+Qed.
+Lemma lock_after_cons st r lk : lock_after (st :: r) lk = lock_after r (lock_after [st] lk).
+Proof. destruct st; reflexivity. Qed.
 (* the snapshots of [run] are the states of [final] on the prefixes *)
-Theorem run_snapshots O H : forall steps m n res d,
-  nth_error (run O H steps m) n = Some (res, d) ->
-  d = dump (final O H (firstn (S n) steps) m) /\
-  res = snd (do_step O H (nth n steps (SStore 0 OList)) (final O H (firstn n steps) m)).
+Theorem run_snapshots O H : forall steps lk m n res d,
+  nth_error (run O H steps lk m) n = Some (res, d) ->
+  d = dump (final O H (firstn (S n) steps) lk m) /\
+  res = snd (fst (do_step_l O H (nth n steps (SStore 0 OList)) (lock_after (firstn n steps) lk)
+                            (final O H (firstn n steps) lk m))).
 Proof.
-  induction steps as [|st r IH]; intros m n res d Hn; [destruct n; discriminate|].
-  cbn [run] in Hn. destruct (do_step O H st m) as [mo rs] eqn:Hd.
+  induction steps as [|st r IH]; intros lk m n res d Hn; [destruct n; discriminate|].
+  cbn [run] in Hn. destruct (do_step_l O H st lk m) as [[mo rs] lk'] eqn:Hd.
   destruct n as [|n].
-  - cbn in Hn. inversion Hn; subst. cbn [firstn final nth]. rewrite Hd. cbn [fst snd]. split; reflexivity.
-  - cbn [nth_error] in Hn. apply IH in Hn. cbn [firstn final nth]. rewrite Hd. cbn [fst]. exact Hn.
+  - cbn in Hn. inversion Hn; subst. cbn [firstn final nth lock_after]. rewrite Hd. cbn [fst snd]. split; reflexivity.
+  - cbn [nth_error] in Hn. apply IH in Hn. cbn [firstn final nth]. rewrite Hd. cbn [fst snd].
+    rewrite lock_after_cons. destruct (do_step_l_indep O H st lk m) as (_ & _ & H3). rewrite Hd in H3. cbn [snd] in H3.
+    rewrite <- H3. exact Hn.
+Qed.
+
+(* database locked: a step that would write reports OperationalError and writes nothing; others unaffected *)
+Theorem locked_step O H st m : (forall b, st <> SLock b) ->
+  match do_step O H st m with
+  | (Some _, _) => do_step_l O H st true m = (None, RRaise EOperational, true)
+  | (None, res) => do_step_l O H st true m = (None, res, true)
+  end.
+Proof.
+  intros Hn. destruct st as [i o|i q|i r|b|o]; try (exfalso; eapply Hn; reflexivity); cbn [do_step_l];
+    destruct (do_step O H _ m) as [[x|] res]; reflexivity.
+Qed.
+Theorem unlocked_step O H st m : (forall b, st <> SLock b) ->
+  do_step_l O H st false m = (fst (do_step O H st m), snd (do_step O H st m), false).
+Proof.
+  intros Hn. destruct st as [i o|i q|i r|b|o]; try (exfalso; eapply Hn; reflexivity); cbn [do_step_l];
+    destruct (do_step O H _ m) as [[x|] res]; reflexivity.
 Qed.
 
 (* ---------- strict JSON values ---------- *)
@@ -252,7 +288,7 @@ Section PvInd.
   Hypothesis HList : forall l, Forall P l -> P (PList l).
   Hypothesis HTuple : forall l, Forall P l -> P (PTuple l).
   Hypothesis HDict : forall l, Forall (fun kv => P (snd kv)) l -> P (PDict l).
-  Hypothesis HOther : P POther.
+  Hypothesis HOther : forall e, P (POther e).
   Fixpoint pv_ind' (v : pv) : P v :=
     match v with
     | PNone => HNone | PBool b => HBool b | PInt z => HInt z | PFloat r => HFloat r | PStr s => HStr s
@@ -265,7 +301,7 @@ Section PvInd.
                              | [] => Forall_nil _
                              | kv :: r => Forall_cons kv (pv_ind' (snd kv)) (go r)
                              end) l)
-    | POther => HOther
+    | POther e => HOther e
     end.
 End PvInd.
 
@@ -308,7 +344,7 @@ Proof. induction 1 as [|x l Hx Hl IH]; [reflexivity|]. cbn [omapl]. now rewrite 
 (* accepted values come back unchanged *)
 Theorem strict_values_roundtrip : forall v, wf_pv v -> check_value v = true -> json_image v = Some v.
 Proof.
-  induction v as [| | | | |l IH|l IH|l IH|] using pv_ind'; intros Hw Hc; try reflexivity; try discriminate.
+  induction v as [| | | | |l IH|l IH|l IH|e] using pv_ind'; intros Hw Hc; try reflexivity; try discriminate.
   - cbn [json_image]. rewrite omapl_id; [reflexivity|].
     cbn [check_value] in Hc. cbn [wf_pv] in Hw.
     induction IH as [|x l Hx Hl IHl]; constructor.
@@ -334,7 +370,7 @@ Qed.
 (* rejected values: the top-level shapes the check refuses are exactly those that do not survive *)
 Theorem rejected_tuple l : check_value (PTuple l) = false /\ json_image (PTuple l) <> Some (PTuple l).
 Proof. split; [reflexivity|]. cbn [json_image]. destruct (omapl json_image l); discriminate. Qed.
-Theorem rejected_other : check_value POther = false /\ json_image POther = None.
+Theorem rejected_other e : check_value (POther e) = false /\ json_image (POther e) = None.
 Proof. split; reflexivity. Qed.
 Lemma image_keys_str : forall l l',
   (fix go (l0 : list (pkey * pv)) : option (list (pkey * pv)) :=
